@@ -259,6 +259,7 @@ impl TraitHandler for OrdEnumHandler {
         token_stream.extend(quote! {
             impl #impl_generics ::core::cmp::Ord for #ident #ty_generics #where_clause {
                 #[inline]
+                #[allow(non_snake_case)]
                 fn cmp(&self, other: &Self) -> ::core::cmp::Ordering {
                     #cmp_token_stream
                 }
